@@ -393,6 +393,11 @@ class Controller:
                         sample_after_change = False
                 if blocked and not inflight:
                     pass
+            elif [t for t in inflight if not uc.get(t) and t not in entered and t not in killed] and \
+                    events_since_progress < SPIN_EVENTS:
+                # a started worker has not reached run() yet (a spawned interpreter can take seconds to boot under load):
+                # that is not the coordinator hanging; only the job's wall-clock timeout applies (machinery error)
+                samples_since_progress = 0
             elif (samples_since_progress >= HANG_SAMPLES or events_since_progress >= SPIN_EVENTS) and not hang:
                 # the coordinator polls and polls although nothing it waits for can still happen
                 hang = True
